@@ -1028,27 +1028,42 @@ func (r *Runner) hdocString(rd *syntax.Redirect) string {
 	// Strip the leading tabs from each line.
 	var buf strings.Builder
 	var cur []syntax.WordPart
+	lines := 0
 	flushLine := func() {
-		if buf.Len() > 0 {
+		if lines > 0 {
 			buf.WriteByte('\n')
 		}
+		lines++
 		buf.WriteString(r.hdocWord(&syntax.Word{Parts: cur}, quoted))
 		cur = cur[:0]
 	}
+	// Only the tabs at the start of a line go away; a literal which follows
+	// an expansion continues a line, and so does the line after an unquoted
+	// backslash-newline, which bash joins before it strips any tabs.
+	lineStart, continued := true, false
 	for _, wp := range rd.Hdoc.Parts {
 		lit, ok := wp.(*syntax.Lit)
 		if !ok {
 			cur = append(cur, wp)
+			lineStart, continued = false, false
 			continue
 		}
 		first := true
 		for part := range strings.SplitSeq(lit.Value, "\n") {
 			if !first {
 				flushLine()
+				lineStart = !continued
 			}
 			first = false
-			part = strings.TrimLeft(part, "\t")
+			if lineStart {
+				part = strings.TrimLeft(part, "\t")
+			}
 			cur = append(cur, &syntax.Lit{Value: part})
+			lineStart = false
+			// The next line continues this one if it ends with an unescaped
+			// backslash.
+			trailing := len(part) - len(strings.TrimRight(part, "\\"))
+			continued = !quoted && trailing%2 == 1
 		}
 	}
 	flushLine()
